@@ -175,15 +175,15 @@ def obligations(tier: str) -> List[dict]:
     else:
         OPS2 = [(0, 0), (0, 1), (1, 0), (1, 1), (1, 2)]
         for fi in range(len(FORMATS)):
+            add(1, fi, False, 600)
+            for op in (0, 1):
+                for r0 in range(len(ROLES)):
+                    add(2, fi, False, 1800, i0_op=op, i0_r=r0)
             for ops in OPS2:
-                for c0 in range(len(CONCEPTS)):
-                    add(3, fi, False, 3000, i0_op=ops[0], i1_op=ops[1],
-                        c0=c0)
-                for op2 in (0, 1, 2):
-                    if ops == (0, 0) and op2 == 2:
-                        continue
-                    add(4, fi, True, 3000, i0_op=ops[0], i1_op=ops[1],
-                        i2_op=op2)
+                add(3, fi, True, 1800, i0_op=ops[0], i1_op=ops[1])
+        for ops in OPS2:
+            for c0 in range(len(CONCEPTS)):
+                add(3, 0, False, 1800, i0_op=ops[0], i1_op=ops[1], c0=c0)
     return obs
 
 
